@@ -62,6 +62,9 @@ func main() {
 	if v := os.Getenv("VERIF_ROOT"); v != "" {
 		verifRoot = v
 	}
+	if v := os.Getenv("VERIF_REPO"); v != "" {
+		repoRoot = v
+	}
 	switch os.Args[1] {
 	case "check":
 		os.Exit(cmdCheck(os.Args[2:]))
@@ -93,6 +96,9 @@ func cmdCheck(args []string) int {
 	workers := fs.Int("workers", 16, "worker count")
 	noEvidence := fs.Bool("no-evidence", false, "do not write the evidence file")
 	fs.Parse(args)
+	if os.Getenv("VERIF_NO_EVIDENCE") == "1" {
+		*noEvidence = true // experiments on scratch copies must not overwrite the evidence of /repo
+	}
 	t0 := time.Now()
 	if t := os.Getenv("VERIF_TIER"); t != "" && *tier == "" {
 		*tier = t
